@@ -135,13 +135,17 @@ def main():
                     print('ERROR applying benign', name, r.stderr[-200:])
                     continue
                 alarms = {}
+                inconcl = []
                 for p in (args.checks.split(',') if args.checks else allids):
                     rc, vio, tail = run_check(p, args.tier, seed=1)
-                    if rc != 0:
+                    if rc == 2 and not vio:
+                        # INCONCLUSIVE (e.g. the default-solver hook was not reached): not an alarm, reported separately
+                        inconcl.append(p)
+                    elif rc != 0:
                         alarms[p] = {'exit': rc, 'violations': [v[:300] for v in vio[:3]], 'tail': tail[-300:]}
                 sh('git -C %s checkout -- .' % TARGET['dir'])
-                results.append({'mutant': 'benign/' + name, 'expected': 'silence', 'caught': not alarms, 'false_alarms': alarms})
-                print(('SILENT ' if not alarms else 'FALSE-ALARM ') + 'benign/%s %s' % (name, sorted(alarms)), flush=True)
+                results.append({'mutant': 'benign/' + name, 'expected': 'silence', 'caught': not alarms, 'false_alarms': alarms, 'inconclusive': inconcl})
+                print(('SILENT ' if not alarms else 'FALSE-ALARM ') + 'benign/%s %s%s' % (name, sorted(alarms), (' inconclusive (exit 2, no VIOLATION line): %s' % inconcl) if inconcl else ''), flush=True)
     finally:
         sh('git -C %s checkout -- .' % TARGET['dir'])
         if scratch:
